@@ -174,7 +174,16 @@ def run_workers(binary, prop, seed, total, budget_s, outdir, extra_args=None):
     while procs:
         for w in list(procs.keys()):
             p, out = procs[w]
-            so, se = p.communicate()
+            # workers stop taking new runs at the deadline; one that is still busy long after it is
+            # stuck inside a single run (a changed compiler can emit a statement that never ends)
+            hard = max(30.0, budget_s * 2 + 300 - (time.time() - t_start))
+            timed_out = False
+            try:
+                so, se = p.communicate(timeout=hard)
+            except subprocess.TimeoutExpired:
+                p.kill()
+                so, se = p.communicate()
+                timed_out = True
             del procs[w]
             recs, _ = read(out)
             for r in recs:
@@ -186,6 +195,9 @@ def run_workers(binary, prop, seed, total, budget_s, outdir, extra_args=None):
             st = state[w]
             last = max([r["run"] for r in recs], default=st["from"] - NPROC)
             crashed = last + NPROC
+            if timed_out:
+                aborted.append({"run": crashed, "signal": "timeout", "stderr": "killed: no progress long after the deadline"})
+                continue
             if p.returncode in (-6, -11, 134, 139) and crashed < total and st["restarts"] < 40:
                 # the run after the last completed one took the process down
                 aborted.append({"run": crashed, "signal": p.returncode, "stderr": "\n".join([l for l in se.splitlines() if not l.startswith("  ")][:3])})
@@ -197,8 +209,9 @@ def run_workers(binary, prop, seed, total, budget_s, outdir, extra_args=None):
             else:
                 bad.append((w, p.returncode, se[-2000:]))
     for a in aborted:
-        records.append({"seed": seed, "run": a["run"], "property": prop, "verdict": {"Skip": "process_abort"}, "shape": None, "tags": [],
-                        "stats": {"statements": 0, "draws": 0, "executions": 0, "faults": {}, "probes": {"process_abort": 1}, "ops": 0, "events": 0, "interleaving": "", "queries": 0},
+        kind = "process_timeout" if a["signal"] == "timeout" else "process_abort"
+        records.append({"seed": seed, "run": a["run"], "property": prop, "verdict": {"Skip": kind}, "shape": None, "tags": [],
+                        "stats": {"statements": 0, "draws": 0, "executions": 0, "faults": {}, "probes": {kind: 1}, "ops": 0, "events": 0, "interleaving": "", "queries": 0},
                         "digest": "", "ref_digest": "", "notes": [a["stderr"]], "scenario": None, "workload": None})
     records.sort(key=lambda r: r["run"])
     return records, bad
